@@ -2264,3 +2264,117 @@ def std_table_diffs(enum_classes: Iterable[Any]) -> List[str]:
             if mv != code:
                 d.append(f"{getattr(en, '__name__', en)}.{name} = {mv} (standard: {code})")
     return d
+
+
+# --------------------------------------------------------------------------------------------
+# TYPE-COERCION dimension of every argument an op hands to the library (case key "forms"). The fields of the standards are
+# VALUES (a TLV type is an octet, a condition code a nibble, a flag a bit, a value field a string of octets); the library's
+# API takes each of them in several Python forms today - the enum member, the plain `int` of the same value, a member of
+# ANOTHER IntEnum class with that value, bool / int for a flag, bytes / bytearray for octets - and what it encodes, accepts,
+# refuses and compares equal must not depend on the form (a guard written `x is not Enum.M`, a dict keyed by the member object,
+# `type(x) is ...` tests, `isinstance(x, bytes)` ... are right for one form only). A case carries the form of each argument in
+# its own "forms" key ({argument name: form}; in a nested object description - `held`, `a`, `b` - in that object's "forms"),
+# which the Lean ops do not read: the Lean answer for the VALUES stays the reference, whatever the form. Only forms the
+# unchanged library accepts are ever generated (tables in the property modules); without the key every argument goes in as
+# before (member by standard name / bytes / bool).
+# --------------------------------------------------------------------------------------------
+CODE_FORMS = ("member", "int", "other")     # enum-valued argument
+FLAG_FORMS = ("bool", "int")                # flag argument
+OCTET_FORMS = ("bytes", "bytearray")        # octet-string argument (memoryview only where the signature names it)
+_FOREIGN: List[Any] = []
+
+
+def foreign_member(code: Any) -> Any:
+    """a member of an IntEnum class that is NOT the library's with the numeric value `code` (-1..255; None otherwise)"""
+    if not _FOREIGN:
+        import enum
+        _FOREIGN.append(enum.IntEnum("ForeignCode", {("C%d" % i if i >= 0 else "N%d" % -i): i for i in range(-1, 256)}))
+    try:
+        return _FOREIGN[0](code)
+    except ValueError:
+        return None
+
+
+def forms_of(a: Any) -> Dict[str, Any]:
+    f = a.get("forms") if isinstance(a, dict) else None
+    return f if isinstance(f, dict) else {}
+
+
+def code_form(enum_cls: Any, code: Any, form: Optional[str] = None, std_table_: Optional[Dict[str, int]] = None,
+              strict: bool = False) -> Any:
+    """the argument an application passes for the code `code` of a field of the standard, in the form `form`:
+    'member' / None: the member with the standard name of the code (std_member); 'int': the plain int `code`; 'other': the
+    member of a foreign IntEnum class with that value. A code that has no member in `enum_cls` goes in exactly as without a
+    form (std_member: the plain int, or ValueError with strict=True), so the domain of the op does not change."""
+    m = std_member(enum_cls, code, std_table_, strict)
+    if form in (None, "member") or not isinstance(code, int) or isinstance(code, bool):
+        return m
+    if not hasattr(m, "name"):          # (no member of that code: already the plain int)
+        return m
+    if form == "int":
+        return int(code)
+    if form == "other":
+        o = foreign_member(code)
+        return int(code) if o is None else o
+    raise InfraError(f"unknown code form {form!r}")
+
+
+def plain_code_form(value: Any, code: int, form: Optional[str] = None) -> Any:
+    """like code_form for a code whose 'member' form the caller has already looked up (`value`): a module constant or a
+    member of one of several enumerations"""
+    if form in (None, "member") or not isinstance(code, int) or isinstance(code, bool):
+        return value
+    if form == "int":
+        return int(code)
+    if form == "other":
+        o = foreign_member(code)
+        return value if o is None else o
+    raise InfraError(f"unknown code form {form!r}")
+
+
+def flag_form(value: Any, form: Optional[str] = None) -> Any:
+    """a flag argument: 'bool' / None: True / False for 1 / 0; 'int': the plain int 1 / 0 (other values unchanged)"""
+    if isinstance(value, bool) or value in (0, 1):
+        return int(value) if form == "int" else bool(value)
+    return value
+
+
+def octets_form(data: Any, form: Optional[str] = None) -> Any:
+    """an octet-string argument as bytes (default), bytearray or memoryview (of an immutable copy)"""
+    if form in (None, "bytes"):
+        return bytes(data)
+    if form == "bytearray":
+        return bytearray(data)
+    if form == "memoryview":
+        return memoryview(bytes(data))
+    raise InfraError(f"unknown octets form {form!r}")
+
+
+def forms_rng(rng: random.Random) -> random.Random:
+    """an independent stream for the choice of forms, derived from the state of the generator's stream WITHOUT drawing from it
+    (the cases generated from `rng` are the same with and without the forms dimension)"""
+    return random.Random(hash(tuple(rng.getstate()[1])) & 0xFFFFFFFFFFFF)      # (a tuple of ints: the same in every process)
+
+
+def draw_forms(frng: random.Random, spec: Dict[str, Iterable[str]], force: bool = True) -> Dict[str, str]:
+    """one form per argument of `spec` ({argument: forms, the first one being the default}); with force=True at least one
+    argument is not in its default form (if any argument has more than one form). Default forms are left out."""
+    names = [k for k, v in spec.items() if len(tuple(v)) > 1]
+    if not names:
+        return {}
+    out = {k: frng.choice(tuple(spec[k])) for k in names}
+    if force and all(out[k] == tuple(spec[k])[0] for k in names):
+        k = frng.choice(names)
+        out[k] = frng.choice(tuple(spec[k])[1:])
+    return {k: v for k, v in out.items() if v != tuple(spec[k])[0]}
+
+
+def case_with_forms(c: Case, forms: Dict[str, Any], nested: Optional[Dict[str, Dict[str, Any]]] = None, tag: str = "+forms") -> Case:
+    """a copy of the case with the "forms" key set (nested: {key of a nested object description: its forms})"""
+    op = dict(c.op)
+    if forms:
+        op["forms"] = dict(forms)
+    for k, f in (nested or {}).items():
+        if f and isinstance(op.get(k), dict):
+            op[k] = {**op[k], "forms": dict(f)}
+    return Case(op, c.expect, errclass=c.errclass, tag=(c.tag + tag) if c.tag else tag.lstrip("+"), keys=c.keys)
